@@ -92,6 +92,16 @@ def spec_graphs(case):
     return H, J
 
 
+def rf_node(G_, node):
+    """user rate function of a spontaneous transition: reads the node attribute (same function object in every call)"""
+    return G_.nodes[node]["nw"]
+
+
+def rf_edge(G_, source, target):
+    """user rate function of an induced transition: reads the per-ordered-pair value stored on the edge"""
+    return G_.adj[source][target]["rfw"][(source, target)]
+
+
 def prepare_graph(case, G, lab):
     """attach the node / edge weight attributes the specification refers to (harness-side set-up, idempotent)"""
     li = {lab(i): i for i in range(case["n"])}
@@ -102,8 +112,11 @@ def prepare_graph(case, G, lab):
     for (u, v), w, wr in zip(case["edges"], case["edgew"], rev):
         G.edges[lab(u), lab(v)]["ew"] = float(F(w))
         ew[(u, v)] = float(F(w))
+        rfw = {(lab(u), lab(v)): float(F(w))}
         if not case.get("directed"):
             ew[(v, u)] = float(F(wr))        # value of the user's rate function for the opposite ordered pair
+            rfw[(lab(v), lab(u))] = float(F(wr))
+        G.edges[lab(u), lab(v)]["rfw"] = rfw
     return ew
 
 
@@ -114,17 +127,18 @@ def call(case, G, lab, tr, full):
     kw = dict(tmin=float(F(case["tmin"])), tmax=float(F(case["tmax"])), return_full_data=full)
     if case["sim"] == "Gillespie_simple_contagion":
         H, J = spec_graphs(case)
-        ew = prepare_graph(case, G, lab)
+        if not case.get("_keep_attrs"):          # (the warm-up call of `allsims.prewarm` runs on perturbed attributes)
+            prepare_graph(case, G, lab)
         for a, b, r, mode in case["spont"]:
             if mode == "label":
                 H.edges[a, b]["weight_label"] = "nw"
             elif mode == "fn":
-                H.edges[a, b]["rate_function"] = lambda G_, node: float(F(case["nodew"][li[node]]))
+                H.edges[a, b]["rate_function"] = rf_node
         for (a, b), (c_, d), r, mode in case["induced"]:
             if mode == "label":
                 J.edges[(a, b), (c_, d)]["weight_label"] = "ew"
             elif mode == "fn":
-                J.edges[(a, b), (c_, d)]["rate_function"] = lambda G_, s, t: ew[(li[s], li[t])]
+                J.edges[(a, b), (c_, d)]["rate_function"] = rf_edge
         with rngmod.scripted(tr):
             return EoN.Gillespie_simple_contagion(G, H, J, IC, case["return_statuses"], **kw)
     else:
